@@ -41,6 +41,8 @@ ASSUMPTIONS = [
     "Same seed => identical frame is required bit for bit (same process, same numpy/GLPK calls).",
     "Feasibility is decided for the samples drawn, not for every sample that could be drawn.",
 ]
+SIG_TWO_POINTS = "two-warmup-points-off-origin"
+SIG_VALIDATE = "validate-varspace-inequalities"
 TOL = 1e-6
 CLEAR = 1e-8
 PUSH = 1e-3
@@ -132,7 +134,7 @@ def cases(draw):
     spec["rxns"] = [dict(r) for r in spec["rxns"]]
     mids = [m["id"] for m in spec["mets"]]
     # extra boundary reactions raise the dimension of the polytope (a bare chain is a segment)
-    n_extra = draw(st.sampled_from([0, 1, 1, 2, 2]))
+    n_extra = draw(st.sampled_from([0, 1, 1, 2, 2, 2]))
     for _ in range(n_extra):
         if len(spec["rxns"]) >= 7:
             break
@@ -209,6 +211,12 @@ def cases(draw):
                 con = {"lb": 0, "ub": 0}
             spec["cons"].append({"name": name, "coefs": coefs, **con})
             applied.append(mod)
+    # the statement is about polytopes one can walk in: lift most segments / points to dimension >= 2
+    if draw(st.sampled_from([True, True, True, False])):
+        while len(spec["rxns"]) < 7 and (polytope_dimension(spec) or 0) < 2:
+            mid = draw(st.sampled_from(mids))
+            spec["rxns"].append({"id": f"R{len(spec['rxns'])}", "mets": {mid: draw(st.sampled_from([-1, 1]))}, "lb": draw(st.sampled_from([-10, 0, -5])),
+                                 "ub": draw(st.sampled_from([10, 100, 5])), "gpr": None, "name": "", "subsystem": "", "notes": {}, "annotation": {}})
     method = draw(st.sampled_from(["achr", "optgp"]))
     api = draw(st.sampled_from(["function", "class", "class", "batch"]))
     return {
@@ -223,7 +231,7 @@ def cases(draw):
         "thinning": draw(st.sampled_from([1, 3, 10])),
         "nproj": None if api == "function" else draw(st.sampled_from([None, None, 1, 2, 7, 100])),
         "seed": draw(st.one_of(st.integers(1, 2**31 - 2), st.integers(1, 1000), st.integers(2**31, 2**40))),
-        "processes": draw(st.sampled_from([1, 1, 1, 1, 1, 1, 2, 3])) if method == "optgp" else 1,
+        "processes": draw(st.sampled_from([1, 1, 1, 1, 1, 2, 3])) if method == "optgp" else 1,
         "rerun": draw(st.sampled_from(["same-model", "fresh-model"])),
         "integer": draw(st.sampled_from([False] * 29 + [True])),
     }
@@ -345,6 +353,110 @@ def _validate(sampler, X, what):
     return [str(c) for c in codes]
 
 
+def _perturbations(sc, base, names, fluxes, seed):
+    """Copies of a feasible row moved PUSH outside a bound / a user constraint / off steady state.
+    Returns [(row, letter, exact_code?, description, class tag)]."""
+    import numpy as np
+
+    out = []
+    n = len(sc.rids)
+    j0 = seed % n
+    rot = list(range(j0, n)) + list(range(j0))
+    if fluxes:
+        v = base
+        for letter, val in (("l", sc.lb[j0] - PUSH), ("u", sc.ub[j0] + PUSH)):
+            w = v.copy()
+            w[j0] = val
+            out.append((w, letter, False, f"flux of {sc.rids[j0]} set to {float(val)!r} (bounds [{sc.lb[j0]}, {sc.ub[j0]}])", f"flux-{letter}"))
+        for jj in rot:  # off steady state but strictly inside the bounds
+            if not np.any(sc.S[:, jj]):
+                continue
+            if v[jj] + PUSH <= sc.ub[jj] - PUSH:
+                delta = PUSH
+            elif v[jj] - PUSH >= sc.lb[jj] + PUSH:
+                delta = -PUSH
+            else:
+                continue
+            w = v.copy()
+            w[jj] += delta
+            out.append((w, "e", True, f"flux of {sc.rids[jj]} moved by {delta} inside its bounds (S v off by {PUSH * float(np.abs(sc.S[:, jj]).max())!r})", "flux-e"))
+            break
+        return out
+    col = {nm: names.index(nm) for nm in sc.var_names}
+    jv = seed % len(sc.var_names)
+    nm = sc.var_names[jv]
+    for letter, val in (("l", sc.vlb[jv] - PUSH), ("u", sc.vub[jv] + PUSH)):
+        w = base.copy()
+        w[col[nm]] = val
+        out.append((w, letter, False, f"variable {nm} set to {float(val)!r} (bounds [{sc.vlb[jv]}, {sc.vub[jv]}])", f"var-{letter}"))
+
+    def room(idx, delta):  # may variable idx move by delta and stay PUSH inside its bounds?
+        x = base[col[sc.var_names[idx]]] + delta
+        return sc.vlb[idx] + PUSH <= x <= sc.vub[idx] - PUSH
+
+    def move_flux(j, delta):
+        """Row with net flux j changed by delta through a variable that stays strictly inside its bounds, or None."""
+        for idx, d in ((2 * j, delta), (2 * j + 1, -delta)):
+            if room(idx, d):
+                w = base.copy()
+                w[col[sc.var_names[idx]]] += d
+                return w, sc.var_names[idx], d
+        return None
+
+    for jj in rot:
+        if not np.any(sc.S[:, jj]):
+            continue
+        got = move_flux(jj, PUSH) or move_flux(jj, -PUSH)
+        if got:
+            out.append((got[0], "e", False, f"variable {got[1]} moved by {got[2]} inside its bounds (S v off by {PUSH * float(np.abs(sc.S[:, jj]).max())!r})", "var-e"))
+            break
+    flux = np.array([base[col[sc.var_names[2 * j]]] - base[col[sc.var_names[2 * j + 1]]] for j in range(n)])
+    for i, c in enumerate(sc.cons):
+        if c["lb"] == c["ub"]:
+            continue
+        cv = float(sc.C[i].dot(flux))
+        done = False
+        for letter, need in (("u", None if c["ub"] is None else float(c["ub"]) - cv + PUSH), ("l", None if c["lb"] is None else float(c["lb"]) - cv - PUSH)):
+            if need is None or done:
+                continue
+            for j in range(n):
+                if sc.C[i, j] == 0:
+                    continue
+                got = move_flux(j, need / sc.C[i, j])
+                if got:
+                    out.append((got[0], letter, False, f"variable {got[1]} moved by {got[2]!r} inside its bounds so that user constraint {c['name']} "
+                                                       f"{c['coefs']} = {cv + need!r} leaves [{c['lb']}, {c['ub']}]", f"var-usercon-{letter}"))
+                    done = True
+                    break
+        if done:
+            break
+    return out
+
+
+def _third_warmup_point_infeasible(model, sc):
+    """Diagnosis for the known finding (never an oracle): warmup = two points plus 0.25*(w1+w2), the latter infeasible."""
+    import numpy as np
+    from cobra.sampling.hr_sampler import HRSampler
+
+    class _Probe(HRSampler):
+        def sample(self, n, fluxes=True):
+            raise NotImplementedError
+
+    probe = _Probe(model, thinning=1, seed=1)
+    try:
+        probe.generate_fva_warmup()
+    except ValueError:
+        return False
+    W = np.asarray(probe.warmup)
+    if W.shape[0] != 3 or not np.allclose(W[2], 0.25 * (W[0] + W[1]), rtol=0, atol=1e-9):
+        return False
+    names = [v.name for v in probe.model.variables]
+    r2 = W[2][[names.index(nm) for nm in sc.var_names]]
+    res = max(float((sc.vlb - r2).max()), float((r2 - sc.vub).max()))
+    res = max([res] + [r for _, r, _ in sc.residuals(r2[0::2] - r2[1::2])[0]])
+    return res > TOL
+
+
 def check_case(case, ctx):
     import numpy as np
 
@@ -376,6 +488,8 @@ def check_case(case, ctx):
         if sorted(want_cols) != sorted(sc.var_names):
             raise RuntimeError(f"harness: variable names {want_cols} differ from the documented split {sc.var_names}")
 
+    origin_in = all(r["lb"] <= 0 <= r["ub"] for r in spec["rxns"]) and all(
+        (c["lb"] is None or c["lb"] <= 0) and (c["ub"] is None or c["ub"] >= 0) for c in spec["cons"])
     refused = None
     try:
         frames, sampler = _run(model, case)
@@ -385,10 +499,16 @@ def check_case(case, ctx):
         d = observe.diff(before, observe.snapshot(model), limit=4)
         if d:
             _v("model-changed", f"sampling raised {type(e).__name__} and left the model changed: {d}")
-        kind = "cannot-escape" if isinstance(e, RuntimeError) and "escape" in str(e) else "crash"
+        escape = isinstance(e, RuntimeError) and "escape" in str(e)
+        if escape and not origin_in and SIG_TWO_POINTS in ctx.known and _third_warmup_point_infeasible(model, sc):
+            # known finding: the warmup collapsed to two points and the added "direction" 0.25*(w1+w2) lies outside a
+            # region that does not contain the origin; attributed by looking at the warmup matrix itself
+            ctx.excluded_by(SIG_TWO_POINTS)
+            return {"nontrivial": False, "classes": classes + ["known-two-warmup-points-off-origin"]}
+        kind = "cannot-escape" if escape else "crash"
         _v(f"no-samples:{kind}", f"{case['method']} ({case['api']}, n={case['n']}, thinning={case['thinning']}, nproj={case['nproj']}, seed={case['seed']}) "
                                 f"raised {type(e).__name__}: {str(e)[:160]} on a feasible model with finite bounds (polytope dimension {dim}, "
-                                f"expected {case['n']} samples)")
+                                f"origin {'inside' if origin_in else 'outside'} the region, expected {case['n']} samples)")
     d = observe.diff(before, observe.snapshot(model), limit=4)
     if d:
         _v("model-changed", f"sampling ({'raised ' + type(refused).__name__ if refused else 'returned'}) left the model changed: {d}")
@@ -398,10 +518,11 @@ def check_case(case, ctx):
             _v("integer-not-refused", f"model with an integer variable: expected TypeError, got {repr(refused) if refused else 'samples'}")
         return {"nontrivial": False, "classes": classes + ["refused-integer"]}
     if refused is not None:
-        if isinstance(refused, ValueError) and dim <= 1:
-            return {"nontrivial": False, "classes": classes + [f"refused-dim-{dim}"]}
+        # documented: ValueError "if flux cone contains a single point or the problem is inhomogeneous"
+        if isinstance(refused, ValueError) and (dim <= 1 or not origin_in):
+            return {"nontrivial": False, "classes": classes + [f"refused-dim-{dim}" if dim <= 1 else "refused-off-origin-dim>=2"]}
         _v("refused-samplable", f"{case['method']} raised {type(refused).__name__}: {str(refused)[:160]} on a feasible model whose flux polytope has "
-                                f"dimension {dim} (expected {case['n']} samples)")
+                                f"dimension {dim} and contains the origin (expected {case['n']} samples)")
 
     # ---- shape ---------------------------------------------------------------------------------------
     p = case["processes"] if case["method"] == "optgp" else 1
@@ -441,65 +562,42 @@ def check_case(case, ctx):
         all_flux.append(V)
 
     # ---- validate() against the independent residuals ----------------------------------------------------
-    if sampler is not None:
+    has_ineq = any(c["lb"] != c["ub"] for c in spec["cons"])
+    if sampler is not None and not case["fluxes"] and has_ineq and SIG_VALIDATE in ctx.known:
+        ctx.excluded_by(SIG_VALIDATE)
+        classes.append("known-validate-skipped")
+    elif sampler is not None:
+        space = "flux space" if case["fluxes"] else "variable space"
         for b, fr in enumerate(frames):
             X = fr.to_numpy(dtype=float)
-            codes = _validate(sampler, X, 'its own samples' + ('' if case['fluxes'] else ' in variable space'))
+            codes = _validate(sampler, X, f"its own samples, {space}")
             if len(codes) != X.shape[0]:
                 _v("validate:shape", f"validate returned {len(codes)} codes for {X.shape[0]} rows")
             for k, code in enumerate(codes):
                 if worst[b][k] <= CLEAR:
                     if code != "v":
-                        _v("validate:false-alarm", f"validate() = {code!r} for row {k} of frame {b} whose independent residual is {worst[b][k]!r} "
-                                                   f"(row {X[k].tolist()})")
+                        _v("validate:false-alarm", f"validate() = {code!r} for row {k} of frame {b} ({space}) whose independent residual is "
+                                                   f"{worst[b][k]!r}, expected 'v' (row {X[k].tolist()})")
                 else:
                     undetermined += 1
-        # perturbed copies of one clearly feasible row
-        V0 = all_flux[0]
-        ok = [k for k in range(V0.shape[0]) if worst[0][k] <= CLEAR]
+        # one clearly feasible row and copies of it pushed out of the region, validated in ONE call
+        ok = [k for k in range(all_flux[0].shape[0]) if worst[0][k] <= CLEAR]
         if ok:
             k = ok[case["seed"] % len(ok)]
-            v = V0[k]
-            j = case["seed"] % n_rxn
-            if case["fluxes"]:
-                for kind, val in (("l", sc.lb[j] - PUSH), ("u", sc.ub[j] + PUSH)):
-                    w = v.copy()
-                    w[j] = val
-                    code = _validate(sampler, w.reshape(1, -1), 'perturbed sample')[0]
-                    if kind not in code:
-                        _v(f"validate:missed-{kind}", f"flux of {rids[j]} set to {val!r} (bounds [{sc.lb[j]}, {sc.ub[j]}]) in a feasible sample, "
-                                                      f"validate() = {code!r}, expected a code containing {kind!r}")
-                # off steady state but strictly inside the bounds
-                for jj in list(range(j, n_rxn)) + list(range(j)):
-                    if not np.any(sc.S[:, jj]):
-                        continue
-                    if v[jj] + PUSH <= sc.ub[jj] - PUSH:
-                        delta = PUSH
-                    elif v[jj] - PUSH >= sc.lb[jj] + PUSH:
-                        delta = -PUSH
-                    else:
-                        continue
-                    w = v.copy()
-                    w[jj] += delta
-                    code = _validate(sampler, w.reshape(1, -1), 'perturbed sample')[0]
-                    if code != "e":
-                        _v("validate:missed-e", f"flux of {rids[jj]} moved by {delta} inside its bounds (S v off by >= {PUSH * float(np.abs(sc.S[:, jj]).max())!r}), "
-                                                f"validate() = {code!r}, expected 'e'")
-                    classes.append("validate-e-probed")
-                    break
-            else:
-                fr = frames[0]
-                names = list(fr.columns)
-                row = fr.to_numpy(dtype=float)[k]
-                jv = case["seed"] % len(sc.var_names)
-                col = names.index(sc.var_names[jv])
-                for kind, val in (("l", sc.vlb[jv] - PUSH), ("u", sc.vub[jv] + PUSH)):
-                    w = row.copy()
-                    w[col] = val
-                    code = _validate(sampler, w.reshape(1, -1), 'perturbed sample')[0]
-                    if kind not in code:
-                        _v(f"validate:missed-{kind}", f"variable {sc.var_names[jv]} set to {val!r} (bounds [{sc.vlb[jv]}, {sc.vub[jv]}]) in a feasible "
-                                                      f"sample, validate() = {code!r}, expected a code containing {kind!r}")
+            base = frames[0].to_numpy(dtype=float)[k]
+            probes = _perturbations(sc, base, list(frames[0].columns), case["fluxes"], case["seed"])
+            W = np.vstack([base] + [pr[0] for pr in probes])
+            codes = _validate(sampler, W, f"a feasible sample and {len(probes)} perturbed copies, {space}")
+            if len(codes) != W.shape[0]:
+                _v("validate:shape", f"validate returned {len(codes)} codes for {W.shape[0]} rows")
+            if codes[0] != "v":
+                _v("validate:false-alarm", f"validate() = {codes[0]!r} for a feasible row (residual {worst[0][k]!r}) when infeasible rows are "
+                                           f"validated in the same call ({space}, codes {codes}), expected 'v'")
+            for (row, letter, exact, text, tag), code in zip(probes, codes[1:]):
+                if (code != letter) if exact else (letter not in code):
+                    _v(f"validate:missed-{letter}", f"{text} in a feasible sample ({space}): validate() = {code!r}, expected "
+                                                    f"{'exactly ' if exact else 'a code containing '}{letter!r}")
+                classes.append(f"validate-probe-{tag}")
             classes.append("validate-probed")
 
     # ---- same seed => same samples ---------------------------------------------------------------------
@@ -532,7 +630,7 @@ def hyp_phase(ctx):
 
 def phases(tier):
     if tier == "quick":
-        return [Phase("hyp", hyp_phase, shards=8, params={"max_examples": 60, "budget_s": 50})]
+        return [Phase("hyp", hyp_phase, shards=8, params={"max_examples": 300, "budget_s": 50})]
     return [Phase("hyp", hyp_phase, shards=16, params={"max_examples": 1500, "budget_s": 500})]
 
 
